@@ -201,7 +201,14 @@ class _LibrationDynamicsService(_DynamicsServiceBase):
         if options is None:
             options = self.eigendecomposition_options
             
-        cache_key = self.make_key(id(self.domain_obj), tuple(sorted(options.to_dict().items())))
+        # The result depends on the config in force (continuous- or discrete-time
+        # classification) as well as on the options: both belong in the key
+        config = self.eigendecomposition_config
+        cache_key = self.make_key(
+            id(self.domain_obj),
+            tuple(sorted(options.to_dict().items())),
+            (config.problem_type, config.system_type),
+        )
 
         def _factory() -> StabilityPipeline:
             # one pipeline per cache entry: the shared generator would be overwritten
